@@ -437,8 +437,45 @@ func lemmaIndexStable(x, y, hi, k1, k2 Mathint) {
 	// request key = k*P, issuer-blinded request key = hi*(k*P), unblinded = k^-1*(hi*(k*P)) for both blinds
 	u1x, u1y := specUnblinded(c, x, y, hi, k1)
 	u2x, u2y := specUnblinded(c, x, y, hi, k2)
+	hx, hy := ECMulX(c, hi, x, y), ECMulY(c, hi, x, y)
+	lemmaUnblindStep(x, y, hi, k1)
+	lemmaUnblindStep(x, y, hi, k2)
+	Vassert(u1x == hx && u1y == hy && u2x == hx && u2y == hy)
 	Vassert(u1x == ECMulX(c, hi%n, x, y) && u1y == ECMulY(c, hi%n, x, y))
 	Vassert(u1x == u2x && u1y == u2y)
+}
+
+// One blind: k^-1*(hi*(k*P)) = hi*P, by the group laws only: hi*(k*P) = k*(hi*P) (both are (hi*k mod N)*P),
+// then k^-1*(k*Q) = (k^-1*k mod N)*Q = 1*Q.
+//
+//@ lemma props C08
+//@ requires ECOnCurve(CurveP384(), x, y) && hi >= 0 && k > 0 && k < ECOrder(CurveP384())
+//@ ensures specUnblindedX(x, y, hi, k) == ECMulX(CurveP384(), hi, x, y) && specUnblindedY(x, y, hi, k) == ECMulY(CurveP384(), hi, x, y)
+func lemmaUnblindStep(x, y, hi, k Mathint) {
+	c := CurveP384()
+	n := ECOrder(c)
+	rx, ry := ECMulX(c, k, x, y), ECMulY(c, k, x, y)
+	hx, hy := ECMulX(c, hi, x, y), ECMulY(c, hi, x, y)
+	bx, by := ECMulX(c, hi, rx, ry), ECMulY(c, hi, rx, ry)
+	kInv := ModInv(k, n)
+	Vassert(bx == ECMulX(c, (hi*k)%n, x, y) && by == ECMulY(c, (hi*k)%n, x, y))
+	Vassert(ECMulX(c, k, hx, hy) == ECMulX(c, (k*hi)%n, x, y) && ECMulY(c, k, hx, hy) == ECMulY(c, (k*hi)%n, x, y))
+	Vassert(bx == ECMulX(c, k, hx, hy) && by == ECMulY(c, k, hx, hy))
+	Vassert(ECOnCurve(c, hx, hy) && kInv > 0 && (kInv*k)%n == 1)
+	Vassert(ECMulX(c, kInv, bx, by) == ECMulX(c, (kInv*k)%n, hx, hy) && ECMulY(c, kInv, bx, by) == ECMulY(c, (kInv*k)%n, hx, hy))
+	Vassert(ECMulX(c, kInv, bx, by) == hx && ECMulY(c, kInv, bx, by) == hy)
+}
+
+//@ spec
+func specUnblindedX(x, y, hi, k Mathint) Mathint {
+	ux, _ := specUnblinded(CurveP384(), x, y, hi, k)
+	return ux
+}
+
+//@ spec
+func specUnblindedY(x, y, hi, k Mathint) Mathint {
+	_, uy := specUnblinded(CurveP384(), x, y, hi, k)
+	return uy
 }
 
 // @ spec
